@@ -123,6 +123,42 @@ def run(ctx):
                     ctx.violation("normalised output is not the state divided by 6378.135 km / 106.30225 km/s",
                                   {"signature": "C01:norm:%s:%.6f" % (l1[2:7], tau), "line1": l1, "line2": l2, "minutes": tau})
     ctx.extra["oracle_worst_pos_diff_km"] = worst
+    # ---------------- array time inputs: every element must conform, not just some ----------------
+    for k in range(ctx.n(6, 40)):
+        f = tlegen.random_fields(ctx.rng)
+        f["ecc"] = ctx.rng.choice([ctx.rng.randint(500000, 4000000), ctx.rng.randint(1, 100000)])
+        f["mm"] = min(f["mm"], 12.0) if f["ecc"] > 1000000 else f["mm"]
+        f["bstar"] = (ctx.rng.randint(10000, 99999), -ctx.rng.randint(4, 6), " ")
+        l1, l2 = tlegen.make(**f)
+        try:
+            tle = tlefile.Tle("X", line1=l1, line2=l2)
+            orb = Orbital("X", line1=l1, line2=l2)
+            el = sgp4ref.elements(**sgp4common.tle_env(tle))
+            c = sgp4ref.init(el)
+        except Exception:
+            continue
+        ep = tle.epoch.astype("datetime64[us]")
+        mins = np.arange(-720, 2160, ctx.n(7, 3), dtype="int64")
+        times = ep + mins.astype("timedelta64[m]")
+        pclass, state = sgp4common.impl_prop(orb, times.astype(ctx.rng.choice(["datetime64[us]", "datetime64[ns]"])))
+        if pclass != "ok":
+            continue
+        worst_k = None
+        for j, m in enumerate(mins):
+            try:
+                pos, vel, info = sgp4ref.propagate(el, c, float(m))
+            except (ValueError, ZeroDivisionError, OverflowError):
+                continue
+            if not (0.5 <= info["a"] / info["a0pp"] <= 2.0):
+                continue
+            dp = math.dist(pos, [float(x) for x in state[0][:, j]])
+            dv = math.dist(vel, [float(x) for x in state[1][:, j]])
+            ctx.case(("array", l1, l2, int(m)))
+            if not (dp <= 1e-6 and dv <= 1e-9) and (worst_k is None or dp > worst_k["pos_diff_km"]):
+                worst_k = {"signature": "C01:str3-array:%s:%d" % (l1[2:7], int(m)), "line1": l1, "line2": l2, "minutes": int(m),
+                           "times": "array of %d instants, 1 per %d min" % (len(mins), int(mins[1] - mins[0])), "pos_diff_km": dp, "vel_diff_kms": dv}
+        if worst_k:
+            ctx.violation("an element of an array-time answer differs from the Spacetrack Report #3 model by more than 1 mm / 1 um/s", worst_k)
     # ---------------- AIAA-2006-6753 verification vectors (5 mm) ----------------
     n_aiaa = 0
     worst_by_sat = {}
